@@ -663,6 +663,15 @@ def vnow():
     return CLOCK.now
 
 
+def burn(dt):
+    """Virtual time consumed by the calling thread inside user / delegate code (a slow call)."""
+    if MODE[0] != "vt":
+        return
+    with CV:
+        CLOCK.now += dt
+        CV.notify_all()
+
+
 def pending_timers():
     with MU:
         return sorted(w.deadline for w in CLOCK.waiters if not w.woken and w.deadline is not None)
